@@ -68,7 +68,7 @@ Definition spec_map (nc nr : nat) (o : top) : option (nat -> nat -> source) :=
 (** the rectangle of the receiver in the C-wide parent *)
 Definition oc_rect (c : ocase) : option rect :=
   match oc_kind c with
-  | 0 => Some (0, 0, oc_C c, oc_R c)
+  | 0 | 6 => Some (0, 0, oc_C c, oc_R c)
   | 4 => match sub_rect (0, 0, oc_C c, oc_R c)
                  (mkLevel true (1%N, 1%N, N.of_nat (oc_C c), N.of_nat (oc_R c))) with
          | Some o => sub_rect o (mkLevel true (oc_win c))
